@@ -210,6 +210,8 @@ def generate(repo, table, lemma_files=None, with_lemmas=True):
         # unwind variants (X-unwind)
         if key == 'context.mark_one' and 'context.mark_one#unwind' in table:
             emit_unwind_variants(g, fns[key], table['context.mark_one#unwind'], rec)
+        if key == 'context.sweep_one' and 'context.sweep_one#unwind' in table:
+            emit_dtor_unwind_variant(g, fns[key], table['context.sweep_one#unwind'], rec)
     g.emit('}')
     g.emit('} // verus!')
     if with_lemmas:
@@ -266,6 +268,37 @@ def emit_unwind_variants(g, fx, contract, rec):
             g.emit('    ' + l, row=row)
         g.emit('    }')
     rec.functions['context.mark_one']['rules'].append('X-unwind(2 variants generated)')
+
+
+def emit_dtor_unwind_variant(g, fx, contract, rec):
+    """X-unwind for a destructor that panics: sweep_one is emitted again with the `drop_in_place` call of its weakly-marked arm followed by
+    `begin_unwind()` and an exit (the destructor has run - A-dtor: a value whose destructor was entered counts as destructed - and then
+    unwinds).  Everything else of the body is kept verbatim.  The arm for unmarked objects is NOT given a variant: there the real code
+    leaves the block unlinked and allocated (a leak, not an inconsistency the collector acts on); see DESIGN 12."""
+    body = fx['body']
+    a = body.find('GcColor::WhiteWeak =>')
+    m = re.search(r'self\.heap\.drop_in_place\((\w+)\)', body[a:]) if a >= 0 else None
+    if not m:
+        raise Unsupported('sweep_one: no `drop_in_place` call found in a `GcColor::WhiteWeak =>` arm (needed for the destructor-unwind variant)')
+    rt = re.search(r'->\s*\(r:\s*(.+)\)\s*$', fx['sig'])
+    rt = rt.group(1) if rt else '()'
+    rep = '{ self.heap.drop_in_place(%s); self.begin_unwind(); return unwound::<%s>(); }' % (m.group(1), rt)
+    txt = body[:a + m.start()] + rep + body[a + m.end():]
+    c = contract['drop_weak']
+    row = 'V.context.sweep_one.unwind_drop_weak'
+    g.rows[row] = dict(serves=c['serves'], kind='verus', fn='context.sweep_one', text=c['ensures'])
+    g.emit('    // ---- generated by rule X-unwind from the extracted sweep_one (the destructor of a weakly marked value panics)')
+    g.emit('    ' + fx['sig'].replace('fn sweep_one(', 'fn sweep_one__unwind_at_drop_weak('))
+    g.emit('        requires')
+    for r in c['requires']:
+        g.emit('            %s,' % r)
+    g.emit('        ensures')
+    g.emit('            %s,' % c['ensures'], row=row)
+    g.emit('    {')
+    for l in txt.split('\n'):
+        g.emit('    ' + l, row=row)
+    g.emit('    }')
+    rec.functions['context.sweep_one']['rules'].append('X-unwind(destructor variant generated)')
 
 
 if __name__ == '__main__':
